@@ -12,7 +12,7 @@ use uom::si::length::meter;
 pub fn def() -> PropDef {
     PropDef {
         id: "C12",
-        rule: "events drawn from the forward model's stated distribution (vertex |x|,|y| <= 1 cm, |z| <= 0.8 m; 2-4 tracks, uniform azimuth, curvature radius 0.3-3.3 m, both charges, dz/ds in [-0.8,0.8]; amplitude factor 0.5-2, pad charge width 3-6 mm) by proptest strategies seeded from (VERIF_SEED, batch, index); each is rendered, digitised, packed into ADC/PWB/TRG banks and reconstructed with MainEvent::vertex(); oracle per batch (quick: 1 x 700 + 1 x 200 events; thorough: 10 x 1000 + 60 x 200) and per sub-batch of >= 200 events of one kind within a batch (2-, 3-, 4-track events; vertex z below -0.3 m, within +-0.3 m, above 0.3 m; the first half): efficiency >= 95 %, median |dz| <= 1.5 cm, P90 |dz| <= 5 cm, median transverse error <= 4 cm, |median dz| <= 3 mm; non-trivial = events in which >= 2 model tracks deposit >= 13 avalanches each and the library finds >= 26 avalanches; distinct by truth hash",
+        rule: "events drawn from the forward model's stated distribution (vertex |x|,|y| <= 1 cm, |z| <= 0.8 m; 2-4 tracks, uniform azimuth, curvature radius 0.3-3.3 m, both charges, dz/ds in [-0.8,0.8]; amplitude factor 0.5-2, pad charge width 3-6 mm) by proptest strategies seeded from (VERIF_SEED, batch, index); each is rendered, digitised, packed into ADC/PWB/TRG banks and reconstructed with MainEvent::vertex(); oracle per batch (quick: 1 x 700 + 1 x 200 mixed events and 6 x 200 events of one kind each - two tracks, two stiff tracks of radius 2-3.3 m, all positive / all negative curvature, vertex at |z| 0.6-0.8 m, two back-to-back tracks; thorough: 10 x 1000 + 60 x 200 mixed, 70 x 300 of one kind) and per sub-batch of >= 200 events of one kind within a batch (2-, 3-, 4-track events; vertex z below -0.3 m, within +-0.3 m, above 0.3 m; the first half): efficiency >= 95 %, median |dz| <= 1.5 cm, P90 |dz| <= 5 cm, median transverse error <= 4 cm, |median dz| <= 3 mm; non-trivial = events in which >= 2 model tracks deposit >= 13 avalanches each and the library finds >= 26 avalanches; distinct by truth hash",
         assumptions: &[
             "the forward model (vcheck/src/fwd.rs) is mine: it decides that the chain is wired correctly within the stated tolerances, not detector-level resolution",
             "observed on the unchanged tree: efficiency ~0.99, median |dz| ~3 mm, P90 ~11 mm, median transverse ~19 mm, |median dz| < 0.4 mm - the limits are 4+ standard errors away for 400 events",
@@ -28,7 +28,39 @@ pub fn truth_at(seed: u64, batch: u64, index: u64) -> Truth {
         c.copy_from_slice(&fingerprint(&(seed, batch, index, i as u64, "c12")).to_le_bytes());
     }
     let mut runner = TestRunner::new_with_rng(Config::default(), TestRng::from_seed(RngAlgorithm::ChaCha, &bytes));
-    fwd::truth().new_tree(&mut runner).unwrap().current()
+    let mut t = fwd::truth().new_tree(&mut runner).unwrap().current();
+    // batches 200.. are batches of one kind of event (still events of the stated
+    // distribution, conditioned): the limits must hold for them as well
+    match batch_kind(batch) {
+        "two-stiff-tracks" => {
+            t.tracks.truncate(2);
+            for tr in &mut t.tracks {
+                tr.radius = 2.0 + (tr.radius - 0.3) / 3.0 * 1.3;
+            }
+        }
+        "two-tracks" => t.tracks.truncate(2),
+        "positive-curvature" => t.tracks.iter_mut().for_each(|tr| tr.charge = 1),
+        "negative-curvature" => t.tracks.iter_mut().for_each(|tr| tr.charge = -1),
+        "vertex-near-an-end" => t.vertex.2 = t.vertex.2.signum() * (0.6 + t.vertex.2.abs() / 4.0),
+        "two-tracks-back-to-back" => {
+            t.tracks.truncate(2);
+            t.tracks[1].azimuth = t.tracks[0].azimuth + std::f64::consts::PI + (t.tracks[1].azimuth - std::f64::consts::PI) * 0.1;
+        }
+        _ => {}
+    }
+    t
+}
+
+// (steep two-track events were tried and left out: on the unchanged tree their P90 |dz| is 24-41 mm
+// and their median dz up to 1.4 mm per 200 events - within the limits, but too close to judge single batches)
+const KINDS: [&str; 6] = ["two-tracks", "two-stiff-tracks", "positive-curvature", "negative-curvature", "vertex-near-an-end", "two-tracks-back-to-back"];
+
+fn batch_kind(batch: u64) -> &'static str {
+    if batch >= 200 {
+        KINDS[(batch - 200) as usize % KINDS.len()]
+    } else {
+        "mixed"
+    }
 }
 
 #[derive(Clone, Copy, Debug)]
@@ -109,8 +141,8 @@ fn batch(r: &Run, k: u64, n: u64) {
         let p90 = quantile(&mut abs_dz, 0.9);
         let med_tr = quantile(&mut tr, 0.5);
         let med_dz = quantile(&mut dz, 0.5);
-        let stats = json!({"batch": k, "sub_batch": name, "events": m, "efficiency": eff, "median_abs_dz_m": med_abs, "p90_abs_dz_m": p90, "median_transverse_m": med_tr, "median_dz_m": med_dz});
-        eprintln!("C12 batch {k} [{name}]: {stats}");
+        let stats = json!({"batch": k, "kind": batch_kind(k), "sub_batch": name, "events": m, "efficiency": eff, "median_abs_dz_m": med_abs, "p90_abs_dz_m": p90, "median_transverse_m": med_tr, "median_dz_m": med_dz});
+        eprintln!("C12 batch {k} ({}) [{name}]: {stats}", batch_kind(k));
         r.with_ev(|ev| {
             if ev.samples.len() < 12 {
                 ev.samples.push(stats.clone());
@@ -145,6 +177,9 @@ fn run(r: &Run) {
         Tier::Quick => {
             batch(r, 0, 700);
             batch(r, 100, 200);
+            for k in 200..206 {
+                batch(r, k, 200);
+            }
         }
         Tier::Thorough => {
             for k in 0..10 {
@@ -153,6 +188,9 @@ fn run(r: &Run) {
             // the smallest batches the statement allows
             for k in 100..160 {
                 batch(r, k, 200);
+            }
+            for k in 200..270 {
+                batch(r, k, 300);
             }
         }
     }
